@@ -58,7 +58,8 @@ TECHNIQUE = ('Coq proof (Gallina model of every span kernel = list-level span / 
 LEVEL_TEXT = ('Theorems in coq/Props/C08.v prove for all inputs that the models of get_spans_for_field, the 2-field, '
               'multi-field and indexed-string span kernels return THE span list (is_spans, unique) and that every '
               'apply_spans_* model returns the per-span first/last/min/max/count/argmin/argmax; the models are tied to '
-              'the real code by running both on the same generated cases.')
+              'the real code by running both on the same generated cases. Whole column: the counts of the spans of a column add '
+              'up to its row count (apply_spans_counts_sum_to_rows).')
 LEVEL_NOTE = ('Trusted: Coq kernel, extraction, harness. numpy/numba element comparisons are modelled (byte-wise), not '
               'verified. Floats are order-embedded integers (float_key on the stored bit pattern: equal values, e.g. +0.0 and '
               '-0.0, get the same integer).')
